@@ -10,9 +10,37 @@ NV = 6     # v0..v3 data, v4 / v5 loop counters handed out by the generator
 
 
 class G:
-    def __init__(self, rng):
+    def __init__(self, rng, callees=(), in_proc=False, protect=()):
         self.rng = rng
         self.counters = 0
+        self.callees = list(callees)      # (index, nparams, recursive) of the procedures this body may call
+        self.in_proc = in_proc
+        self.protect = set(protect)       # variables the body must not assign (the descent variable of a recursive procedure)
+
+    def target(self):
+        while True:
+            v = self.rng.randrange(4)
+            if v not in self.protect:
+                return v
+
+    def call(self, to=None, first=None):
+        """CALL of one of the callable procedures: a data variable (each at most once: no aliasing) goes by reference, anything
+        else by value; the first argument of a recursive procedure is a small number (the depth)"""
+        r = self.rng
+        idx, np_, rec = to if to is not None else r.choice(self.callees)
+        free = [v for v in range(4) if v not in self.protect]
+        r.shuffle(free)
+        args = []
+        for i in range(np_):
+            if i == 0 and first is not None:
+                args.append(('X', first))
+            elif i == 0 and rec:
+                args.append(('X', ('N', r.randint(0, 3))))
+            elif free and r.random() < 0.55:
+                args.append(('R', free.pop()))
+            else:
+                args.append(('X', self.expr(1, True)))
+        return ('C', idx, args)
 
     def expr(self, depth, small=False):
         r = self.rng
@@ -48,10 +76,14 @@ class G:
     def stmt(self, depth, in_do, in_for):
         r = self.rng
         k = r.random()
+        if self.callees and r.random() < 0.22:
+            return self.call()
+        if self.in_proc and depth > 0 and r.random() < 0.06:
+            return ('I', self.cond(), [('XS',)], [])
         if depth <= 0 or k < 0.3:
             if r.random() < 0.5:
                 return ('P', self.expr(2))
-            return ('A', r.randrange(4), self.expr(2))
+            return ('A', self.target(), self.expr(2))
         if k < 0.4 and (in_do or in_for):
             ex = r.choice([x for x, ok in (('XD', in_do), ('XF', in_for)) if ok])
             return ('I', self.cond(), [(ex,)], [])
@@ -146,6 +178,28 @@ def flatten(block):
     return out
 
 
+def gen_procs(rng):
+    """0-3 procedures (INTEGER parameters); a procedure may call the ones after it, and may call itself with a smaller first
+    argument (the first parameter of such a procedure is never assigned)"""
+    n = rng.choice([0, 1, 2, 2, 3])
+    shapes = []
+    for i in range(n):
+        np_ = rng.randint(0, 3)
+        shapes.append((i, np_, np_ >= 1 and rng.random() < 0.3))
+    procs = []
+    for i, np_, rec in shapes:
+        g = G(rng, callees=shapes[i + 1:], in_proc=True, protect=[0] if rec else [])
+        body = flatten(g.block(2, False, False, rng.randint(1, 3)))
+        if rec:
+            again = g.call(to=(i, np_, True), first=('B', 'sub', ('V', 0), ('N', 1)))
+            pos = rng.randrange(len(body) + 1)
+            body = body[:pos] + [('I', ('B', 'gt', ('V', 0), ('N', 0)), [again], [])] + body[pos:]
+        if rng.random() < 0.5:
+            body.append(('P', ('V', rng.randrange(4))))
+        procs.append({'np': np_, 'body': body})
+    return shapes, procs
+
+
 def loop_of(kind, c, n, body):
     """a terminating loop of the given kind over counter c (0 .. n-1); the body must not touch c"""
     inc = ('A', c, ('B', 'add', ('V', c), ('N', 1)))
@@ -190,28 +244,75 @@ def gen_nested_exit(rng):
 
 
 def gen(rng, depth=3):
-    if rng.random() < 0.35:
-        return gen_nested_exit(rng)
-    g = G(rng)
+    """-> (procedures, main block)"""
+    if rng.random() < 0.3:
+        return [], gen_nested_exit(rng)
+    shapes, procs = gen_procs(rng) if rng.random() < 0.6 else ([], [])
+    g = G(rng, callees=shapes)
     prog = flatten(g.block(depth, False, False, rng.randint(1, 3)))
+    if shapes:
+        # every procedure is called at least once from somewhere; the data variables are shown at the end
+        called = set()
+
+        def walk(b):
+            for s_ in b:
+                if s_[0] == 'C':
+                    called.add(s_[1])
+                elif s_[0] == 'I':
+                    walk(s_[2]); walk(s_[3])
+                elif s_[0] in ('W',):
+                    walk(s_[2])
+                elif s_[0] in ('D', 'F'):
+                    walk(s_[5])
+                elif s_[0] == 'S':
+                    for _, bb in s_[2]:
+                        walk(bb)
+                    walk(s_[3])
+        walk(prog)
+        for pr in procs:
+            walk(pr['body'])
+        for sh in shapes:
+            if sh[0] not in called:
+                prog.insert(rng.randrange(len(prog) + 1), g.call(to=sh))
+        prog += [('P', ('V', v)) for v in range(4)]
     if rng.random() < 0.15:
         pos = rng.randrange(len(prog) + 1)
         prog = prog[:pos] + [('E',)] + prog[pos:]
-    return prog
+    if procs and rng.random() < 0.2:
+        # END inside a procedure ends the whole program
+        b = rng.choice(procs)['body']
+        b.insert(rng.randrange(len(b) + 1), ('I', ('B', 'eq', ('V', rng.randrange(4)), ('N', rng.randint(0, 2))), [('E',)], []))
+    return procs, prog
 
 
 # ---- rendering
+
+NP = [None]     # the number of parameters of the procedure being rendered (None: the main program)
+
+
+def var_name(i):
+    if NP[0] is None:
+        return f'v{i}%'
+    return f'q{i}%' if i < NP[0] else f'w{i}%'
+
 
 def src_expr(e):
     if e[0] == 'N':
         return str(e[1]) if e[1] >= 0 else f'({e[1]})'
     if e[0] == 'V':
-        return f'v{e[1]}%'
+        return var_name(e[1])
     if e[0] == 'G':
         return f'(-{src_expr(e[1])})'
     if e[0] == 'T':
         return f'(NOT {src_expr(e[1])})'
     return f'({src_expr(e[2])} {OPS[e[1]]} {src_expr(e[3])})'
+
+
+def src_arg(a):
+    if a[0] == 'R':
+        return var_name(a[1])
+    t = src_expr(a[1])
+    return t if t.startswith('(') or a[1][0] == 'N' else f'({t})'      # a bare variable would go by reference
 
 
 def src_block(block, ind):
@@ -220,7 +321,7 @@ def src_block(block, ind):
     for s in block:
         k = s[0]
         if k == 'A':
-            out.append(f'{pad}v{s[1]}% = {src_expr(s[2])}')
+            out.append(f'{pad}{var_name(s[1])} = {src_expr(s[2])}')
         elif k == 'P':
             out.append(f'{pad}PRINT {src_expr(s[1])}')
         elif k == 'I':
@@ -241,7 +342,7 @@ def src_block(block, ind):
             out += src_block(s[5], ind + 1)
             out.append(pad + tail)
         elif k == 'F':
-            out.append(f'{pad}FOR v{s[1]}% = {src_expr(s[2])} TO {src_expr(s[3])} STEP {src_expr(s[4])}')
+            out.append(f'{pad}FOR {var_name(s[1])} = {src_expr(s[2])} TO {src_expr(s[3])} STEP {src_expr(s[4])}')
             out += src_block(s[5], ind + 1)
             out.append(f'{pad}NEXT')
         elif k == 'S':
@@ -269,11 +370,24 @@ def src_block(block, ind):
             out.append(pad + 'EXIT FOR')
         elif k == 'E':
             out.append(pad + 'END')
+        elif k == 'XS':
+            out.append(pad + 'EXIT SUB')
+        elif k == 'C':
+            out.append(f'{pad}CALL p{s[1]}' + ('(' + ', '.join(src_arg(a) for a in s[2]) + ')' if s[2] else ''))
     return out
 
 
-def to_source(prog):
-    return '\n'.join(src_block(prog, 0)) + '\n'
+def to_source(program):
+    procs, prog = program
+    NP[0] = None
+    lines = src_block(prog, 0)
+    for i, pr in enumerate(procs):
+        NP[0] = pr['np']
+        lines += ['', f'SUB p{i}' + ('(' + ', '.join(f'q{j}%' for j in range(pr['np'])) + ')' if pr['np'] else '')]
+        lines += src_block(pr['body'], 1)
+        lines += ['END SUB']
+    NP[0] = None
+    return '\n'.join(lines) + '\n'
 
 
 def enc_expr(e):
@@ -307,6 +421,8 @@ def enc_stmt(s):
     if k == 'S':
         cases = ' '.join(f'{len(cl)} ' + ' '.join(enc_clause(c) for c in cl) + ' ' + enc_block(b) for cl, b in s[2])
         return f'S {enc_expr(s[1])} {len(s[2])} {cases} {enc_block(s[3])}'.replace('  ', ' ')
+    if k == 'C':
+        return f'C {s[1]} {len(s[2])} ' + ' '.join(f'R {a[1]}' if a[0] == 'R' else 'X ' + enc_expr(a[1]) for a in s[2]) if s[2] else f'C {s[1]} 0'
     return k
 
 
@@ -316,5 +432,7 @@ def enc_clause(c):
     return f'{c[0]} {enc_expr(c[1])}'
 
 
-def to_request(prog, fuel=4000):
-    return f'src {fuel} {NV} {enc_block(prog)}'
+def to_request(program, fuel=4000):
+    procs, prog = program
+    ptxt = ' '.join(f'{pr["np"]} {NV - pr["np"]} {enc_block(pr["body"])}' for pr in procs)
+    return f'src {fuel} {NV} {len(procs)} {ptxt + " " if procs else ""}{enc_block(prog)}'
